@@ -328,9 +328,21 @@ def do_api_case(c):
                 del r
             elif name == 'oom':
                 inner = args[0]
-                with clamped_address_space():
-                    r = getattr(m, inner[0])(*inner[1:])
-                out.append(r if r is None or isinstance(r, int) else str(r)[:40])
+                if inner[0] == 'run':
+                    kw = dict(inner[2])
+                    rb, wb = _make_io(kw.pop('io', None), bytes.fromhex(inner[1]))
+                    signal.setitimer(signal.ITIMER_REAL, 2.0)
+                    try:
+                        with clamped_address_space():
+                            r = m.run(rb, wb, IOReadOnEOF, **kw)
+                    finally:
+                        signal.setitimer(signal.ITIMER_REAL, 0)
+                    out.append([r[0], r[1], r[2], list(r[3])[:8]])
+                    del r
+                else:
+                    with clamped_address_space():
+                        r = getattr(m, inner[0])(*inner[1:])
+                    out.append(r if r is None or isinstance(r, int) else str(r)[:40])
             elif name == 'last_ops_probe':
                 content, problem = _probe_last_ops(m)
                 if problem:
